@@ -9,3 +9,8 @@ import Gostatix.Props.C06
 import Gostatix.Props.C12
 import Gostatix.Props.C17
 import Gostatix.Props.C04
+import Gostatix.Props.C07
+import Gostatix.Props.C16
+import Gostatix.Props.C02
+import Gostatix.Props.C13
+import Gostatix.Props.C14
